@@ -57,16 +57,16 @@ type tpKey struct {
 }
 
 type fakeRT struct {
-	mu      sync.Mutex
-	nparts  map[string]int
-	logs    map[tpKey][]string
-	faults  map[tpKey][]fault
-	nmeta   int
-	metaGat map[int]string // nth metadata call (1-based) waits for gate
-	gates   map[string]chan struct{}
-	reached map[string]chan struct{} // closed when a call starts waiting on the gate
+	mu        sync.Mutex
+	nparts    map[string]int
+	logs      map[tpKey][]string
+	faults    map[tpKey][]fault
+	nmeta     int
+	metaGat   map[int]string // nth metadata call (1-based) waits for gate
+	gates     map[string]chan struct{}
+	reached   map[string]chan struct{} // closed when a call starts waiting on the gate
 	attempted map[string]bool
-	multi   int // produce requests that were not exactly one topic / one partition
+	multi     int // produce requests that were not exactly one topic / one partition
 }
 
 func newFake() *fakeRT {
@@ -237,7 +237,7 @@ func transient(i int) error {
 
 type msgSpec struct {
 	key   string
-	size  int // Message.totalSize measure: 23 + len(key) + len(value) (+ header bytes)
+	size  int    // Message.totalSize measure: 23 + len(key) + len(value) (+ header bytes)
 	topic string // message-level topic ("" = none)
 	part  int
 	hdr   bool
@@ -250,21 +250,23 @@ type callSpec struct {
 }
 
 type scenario struct {
-	name    string
-	bs      int
-	bb      int64
-	ma      int
-	async   bool
-	compl   bool
-	wtopic  string
-	timeout time.Duration
-	nparts  map[string]int
-	callers [][]callSpec
-	faults  map[tpKey][]fault
-	closeAt time.Duration // <0: close after everything was flushed
-	special string
-	jitter  bool
+	name       string
+	bs         int
+	bb         int64
+	ma         int
+	async      bool
+	compl      bool
+	wtopic     string
+	timeout    time.Duration
+	nparts     map[string]int
+	callers    [][]callSpec
+	faults     map[tpKey][]fault
+	closeAt    time.Duration // <0: close after everything was flushed
+	special    string
+	jitter     bool
 	emptyCalls bool
+	jitterUs   int
+	sinkDelay  map[string]time.Duration // event key ("PW.NewBatch", "PW.Detach:timer", "Q.Get:batch", "B.TimerFire") -> stall inside that critical section
 }
 
 var temporaryCodes = []int16{2, 3, 5, 6, 7, 13, 19, 20, 56}
@@ -322,6 +324,7 @@ func (b *builder) random(idx int, thorough bool) *scenario {
 		topics = []string{"a", "b"}[:1+r.Intn(2)]
 	} else {
 		sc.wtopic = "t"
+		sc.nparts["u"] = 1 + r.Intn(2) // exists on the cluster but is never a legal target of this writer
 	}
 	for _, t := range topics {
 		sc.nparts[t] = 1 + r.Intn(3)
@@ -373,7 +376,8 @@ func (b *builder) random(idx int, thorough bool) *scenario {
 					if sc.wtopic == "" {
 						topic = ""
 					} else {
-						topic = "zz"
+						// message-level topic besides the writer-level one: an unknown topic, the writer's own, or another existing one
+						topic = []string{"zz", "t", "u"}[r.Intn(3)]
 					}
 				}
 				part := r.Intn(sc.nparts[tname])
@@ -456,6 +460,103 @@ func (b *builder) holdRetry(n int, first string) *scenario {
 	return sc
 }
 
+// tinyTimeout: BatchTimeout of microseconds with BatchSize 2 and odd message counts, while every batch creation is
+// stalled inside the partition mutex: the linger timer of a batch expires while writeMessages fills and queues it and
+// opens the next batch, so the timer branch of awaitBatch runs for a batch that is no longer attached
+// (B.TimerFire … false) next to a newer open batch.
+func (b *builder) tinyTimeout(i int) *scenario {
+	r := b.r
+	sc := &scenario{name: "tiny" + strconv.Itoa(i), bs: 2, bb: 1 << 20, ma: 2, async: i%3 != 2, compl: i%2 == 0, wtopic: "t",
+		timeout: time.Duration(1+r.Intn(30)) * time.Microsecond, nparts: map[string]int{"t": 1}, faults: map[tpKey][]fault{}, closeAt: -1,
+		sinkDelay: map[string]time.Duration{"PW.NewBatch": time.Duration(60+r.Intn(120)) * time.Microsecond}}
+	ncallers := 1 + r.Intn(2)
+	for c := 0; c < ncallers; c++ {
+		var calls []callSpec
+		for j := 0; j < 1+r.Intn(2); j++ {
+			b.nextC++
+			cs := callSpec{id: b.nextC}
+			n := 3 + 2*r.Intn(10)
+			for k := 0; k < n; k++ {
+				cs.msgs = append(cs.msgs, b.mkMsg(40+r.Intn(5), "", 0, false))
+			}
+			calls = append(calls, cs)
+		}
+		sc.callers = append(sc.callers, calls)
+	}
+	return sc
+}
+
+// qstall: the sender is stalled inside batchQueue.Get (queue lock held) and timer flushes are stalled inside the
+// partition mutex, with several callers writing small calls: whoever queues a batch has to wait for the queue lock,
+// which shows whether the hand-over of an expired batch to the queue happens inside its partition-mutex section.
+func (b *builder) qstall(i int) *scenario {
+	r := b.r
+	sc := &scenario{name: "qstall" + strconv.Itoa(i), bs: 3, bb: 1 << 20, ma: 2, async: i%4 != 3, compl: true, wtopic: "t",
+		timeout: time.Duration(150+r.Intn(350)) * time.Microsecond, nparts: map[string]int{"t": 1}, faults: map[tpKey][]fault{}, closeAt: -1,
+		jitter: true, jitterUs: 500,
+		sinkDelay: map[string]time.Duration{"Q.Get:batch": time.Duration(1500+r.Intn(1500)) * time.Microsecond, "PW.Detach:timer": 150 * time.Microsecond}}
+	for c := 0; c < 4; c++ {
+		var calls []callSpec
+		for j := 0; j < 8+r.Intn(5); j++ {
+			b.nextC++
+			cs := callSpec{id: b.nextC}
+			for k := 0; k < 1+r.Intn(2); k++ {
+				cs.msgs = append(cs.msgs, b.mkMsg(40+r.Intn(5), "", 0, false))
+			}
+			calls = append(calls, cs)
+		}
+		sc.callers = append(sc.callers, calls)
+	}
+	return sc
+}
+
+// exactFill: one call whose messages bring a batch EXACTLY to BatchBytes (count below BatchSize) or exactly to
+// BatchSize, and then nothing more is written.
+func (b *builder) exactFill(i int) *scenario {
+	r := b.r
+	u := 40 + r.Intn(30)
+	k := 1 + i%4
+	sc := &scenario{name: "exact" + strconv.Itoa(i), bs: 100, bb: int64(k * u), ma: 1, async: i%2 == 1, compl: false, wtopic: "t",
+		timeout: 8 * time.Millisecond, nparts: map[string]int{"t": 1}, faults: map[tpKey][]fault{}, closeAt: -1}
+	if i%5 == 4 {
+		sc.bs, sc.bb = k, 1<<20
+	}
+	b.nextC++
+	cs := callSpec{id: b.nextC}
+	for j := 0; j < k; j++ {
+		cs.msgs = append(cs.msgs, b.mkMsg(u, "", 0, false))
+	}
+	sc.callers = [][]callSpec{{cs}}
+	return sc
+}
+
+// topicMix: Writer.Topic is set and one message of the call (first / middle / last) also names a topic that exists
+// on the cluster (the writer's own or another one): the whole call must be rejected before anything is sent.
+func (b *builder) topicMix(i int) *scenario {
+	sc := &scenario{name: "topicmix" + strconv.Itoa(i), bs: 2, bb: 1 << 20, ma: 1, async: i%2 == 1, compl: true, wtopic: "t",
+		timeout: 2 * time.Millisecond, nparts: map[string]int{"t": 2, "u": 1}, faults: map[tpKey][]fault{}, closeAt: -1}
+	n := 1 + i%3*2 // 1, 3, 5 messages
+	pos := []int{0, n / 2, n - 1}[(i/3)%3]
+	b.nextC++
+	cs := callSpec{id: b.nextC}
+	for j := 0; j < n; j++ {
+		topic := ""
+		if j == pos {
+			topic = []string{"u", "t"}[i%2]
+		}
+		part := 0
+		if topic == "" {
+			part = j % 2
+		}
+		cs.msgs = append(cs.msgs, b.mkMsg(45, topic, part, false))
+	}
+	// a legal call of the same goroutine afterwards: the writer still works
+	b.nextC++
+	ok := callSpec{id: b.nextC, msgs: []msgSpec{b.mkMsg(45, "", 0, false), b.mkMsg(45, "", 1, false)}}
+	sc.callers = [][]callSpec{{cs, ok}}
+	return sc
+}
+
 // ---------------------------------------------------------------- running one scenario
 
 type result struct {
@@ -502,11 +603,15 @@ func run(sc *scenario, out *bufio.Writer) {
 	kafka.VerifStart()
 	var tmu sync.Mutex
 	born := map[string]time.Time{}
+	var dumpMu sync.Mutex
+	var dump func(why string) // set below, once the calls exist
+	completed := map[string]bool{}
 	kafka.VerifSetSink(func(e kafka.VerifEvent) {
 		switch e.Kind {
 		case "PW.NewBatch":
 			tmu.Lock()
 			born[e.Args[1]] = time.Now()
+			delete(completed, e.Args[1])
 			tmu.Unlock()
 		case "B.TimerFire":
 			tmu.Lock()
@@ -514,6 +619,35 @@ func run(sc *scenario, out *bufio.Writer) {
 				timerObs.add(time.Since(t0), sc.timeout)
 			}
 			tmu.Unlock()
+		case "B.Complete":
+			// a batch about to be completed a second time: batch.complete will panic (close of closed channel) and take
+			// the process down; put the trace on record first
+			tmu.Lock()
+			again := completed[e.Args[1]]
+			completed[e.Args[1]] = true
+			tmu.Unlock()
+			if again {
+				dumpMu.Lock()
+				d := dump
+				dumpMu.Unlock()
+				if d != nil {
+					d("second B.Complete of one batch")
+				}
+			}
+		}
+		if len(sc.sinkDelay) > 0 {
+			k := e.Kind
+			switch e.Kind {
+			case "PW.Detach":
+				k += ":" + e.Args[2]
+			case "Q.Get":
+				if e.Args[1] != "nil" {
+					k += ":batch"
+				}
+			}
+			if d := sc.sinkDelay[k]; d > 0 {
+				time.Sleep(d)
+			}
 		}
 	})
 	defer kafka.VerifSetSink(nil)
@@ -537,6 +671,95 @@ func run(sc *scenario, out *bufio.Writer) {
 	var rmu sync.Mutex
 	var results []result
 	var wg sync.WaitGroup
+	// ---- render (also used for an emergency dump right before a crash)
+	dumped := false
+	render := func(evs []kafka.VerifEvent, unsent int, stuck bool) {
+		rmu.Lock()
+		defer rmu.Unlock()
+		f.mu.Lock()
+		defer f.mu.Unlock()
+		if dumped {
+			return
+		}
+		dumped = true
+		var sb strings.Builder
+		wt := sc.wtopic
+		if wt == "" {
+			wt = "-"
+		}
+		fmt.Fprintf(&sb, "wtrace %s %d %d %d %d %d %s | ", sc.name, sc.bs, sc.bb, sc.ma, b2i(sc.async), b2i(sc.compl), wt)
+		first := true
+		for ci := range live {
+			for si, lc := range live[ci] {
+				if !first {
+					sb.WriteString(";")
+				}
+				first = false
+				fmt.Fprintf(&sb, "c%d %s %d %d ", lc.spec.id, lc.ptr, ci, si)
+				for i, m := range lc.spec.msgs {
+					if i > 0 {
+						sb.WriteString(",")
+					}
+					t := m.topic
+					if t == "" {
+						t = "-"
+					}
+					fmt.Fprintf(&sb, "%s:%d:%s:%d", m.key, m.size, t, m.part)
+				}
+			}
+		}
+		sb.WriteString(" | ")
+		sb.WriteString(renderEvents(evs))
+		sb.WriteString("\t")
+		sort.Slice(results, func(i, j int) bool { return results[i].call < results[j].call })
+		sb.WriteString("ret ")
+		if len(results) == 0 {
+			sb.WriteString("-")
+		}
+		for i, r := range results {
+			if i > 0 {
+				sb.WriteString(";")
+			}
+			fmt.Fprintf(&sb, "c%d %s", r.call, r.code)
+		}
+		sb.WriteString(" | log ")
+		var tps []tpKey
+		for tp, l := range f.logs {
+			if len(l) > 0 {
+				tps = append(tps, tp)
+			}
+		}
+		sort.Slice(tps, func(i, j int) bool {
+			return tps[i].topic < tps[j].topic || tps[i].topic == tps[j].topic && tps[i].part < tps[j].part
+		})
+		for i, tp := range tps {
+			if i > 0 {
+				sb.WriteString(";")
+			}
+			fmt.Fprintf(&sb, "%s/%d %s", tp.topic, tp.part, strings.Join(f.logs[tp], ","))
+		}
+		if len(tps) == 0 {
+			sb.WriteString("-")
+		}
+		sb.WriteString(" | cb ")
+		cbmu.Lock()
+		sort.Slice(cbs, func(i, j int) bool { return keyLess(cbs[i], cbs[j]) })
+		if len(cbs) == 0 {
+			sb.WriteString("-")
+		}
+		sb.WriteString(strings.Join(cbs, ";"))
+		cbmu.Unlock()
+		fmt.Fprintf(&sb, " | unsent %d | multi %d | stuck %d", unsent, f.multi, b2i(stuck))
+		out.WriteString(sb.String())
+		out.WriteString("\n")
+		out.Flush()
+	}
+	dumpMu.Lock()
+	dump = func(why string) {
+		fmt.Fprintf(os.Stderr, "writer driver: %s in scenario %s: dumping the trace before the library panics\n", why, sc.name)
+		render(kafka.VerifSnapshot(), 0, false)
+	}
+	dumpMu.Unlock()
 	if sc.special == "closewin" {
 		f.metaGat[2] = "meta2"
 	}
@@ -552,7 +775,7 @@ func run(sc *scenario, out *bufio.Writer) {
 			}
 			for _, lc := range live[ci] {
 				if sc.jitter && jr.Intn(2) == 0 {
-					time.Sleep(time.Duration(jr.Intn(1500)) * time.Microsecond)
+					time.Sleep(time.Duration(jr.Intn(sc.jitterMaxUs())) * time.Microsecond)
 				}
 				ctx := context.Background()
 				if lc.spec.cancel {
@@ -590,16 +813,16 @@ func run(sc *scenario, out *bufio.Writer) {
 		time.Sleep(sc.closeAt)
 		go doClose()
 	}
-	callersStuck := !waitTimeout(&wg, 6*time.Second)
+	callersStuck := !waitTimeout(&wg, 3*time.Second)
 	// every accepted message must get produced without further input (async: poll; sync calls have returned)
 	unsent := 0
 	if callersStuck {
 		// a synchronous caller never got its batch completed: flush through Close so that the run ends
 		unsent = 1
 		go doClose()
-		waitTimeout(&wg, 6*time.Second)
+		waitTimeout(&wg, 2*time.Second)
 	} else if sc.closeAt < 0 && sc.special != "closewin" {
-		deadline := time.Now().Add(sc.timeout + 4*time.Second)
+		deadline := time.Now().Add(sc.timeout + 2*time.Second)
 		for {
 			unsent = 0
 			okcalls := map[int]bool{}
@@ -633,76 +856,21 @@ func run(sc *scenario, out *bufio.Writer) {
 	stuck := false
 	select {
 	case <-closed:
-	case <-time.After(8 * time.Second):
+	case <-time.After(4 * time.Second):
 		stuck = true
 	}
 	evs := kafka.VerifStop()
-	// ---- render
-	var sb strings.Builder
-	wt := sc.wtopic
-	if wt == "" {
-		wt = "-"
+	if callersStuck || unsent > 0 || stuck {
+		failedScenarios++
 	}
-	fmt.Fprintf(&sb, "wtrace %s %d %d %d %d %d %s | ", sc.name, sc.bs, sc.bb, sc.ma, b2i(sc.async), b2i(sc.compl), wt)
-	first := true
-	for ci := range live {
-		for si, lc := range live[ci] {
-			if !first {
-				sb.WriteString(";")
-			}
-			first = false
-			fmt.Fprintf(&sb, "c%d %s %d %d ", lc.spec.id, lc.ptr, ci, si)
-			for i, m := range lc.spec.msgs {
-				if i > 0 {
-					sb.WriteString(",")
-				}
-				t := m.topic
-				if t == "" {
-					t = "-"
-				}
-				fmt.Fprintf(&sb, "%s:%d:%s:%d", m.key, m.size, t, m.part)
-			}
-		}
+	render(evs, unsent, stuck)
+}
+
+func (sc *scenario) jitterMaxUs() int {
+	if sc.jitterUs > 0 {
+		return sc.jitterUs
 	}
-	sb.WriteString(" | ")
-	sb.WriteString(renderEvents(evs))
-	sb.WriteString("\t")
-	sort.Slice(results, func(i, j int) bool { return results[i].call < results[j].call })
-	sb.WriteString("ret ")
-	for i, r := range results {
-		if i > 0 {
-			sb.WriteString(";")
-		}
-		fmt.Fprintf(&sb, "c%d %s", r.call, r.code)
-	}
-	sb.WriteString(" | log ")
-	var tps []tpKey
-	for tp, l := range f.logs {
-		if len(l) > 0 {
-			tps = append(tps, tp)
-		}
-	}
-	sort.Slice(tps, func(i, j int) bool { return tps[i].topic < tps[j].topic || tps[i].topic == tps[j].topic && tps[i].part < tps[j].part })
-	for i, tp := range tps {
-		if i > 0 {
-			sb.WriteString(";")
-		}
-		fmt.Fprintf(&sb, "%s/%d %s", tp.topic, tp.part, strings.Join(f.logs[tp], ","))
-	}
-	if len(tps) == 0 {
-		sb.WriteString("-")
-	}
-	sb.WriteString(" | cb ")
-	cbmu.Lock()
-	sort.Slice(cbs, func(i, j int) bool { return keyLess(cbs[i], cbs[j]) })
-	if len(cbs) == 0 {
-		sb.WriteString("-")
-	}
-	sb.WriteString(strings.Join(cbs, ";"))
-	cbmu.Unlock()
-	fmt.Fprintf(&sb, " | unsent %d | multi %d | stuck %d", unsent, f.multi, b2i(stuck))
-	out.WriteString(sb.String())
-	out.WriteString("\n")
+	return 1500
 }
 
 // timerStats: observation only (timing is runtime): elapsed time between PW.NewBatch and B.TimerFire vs BatchTimeout.
@@ -713,6 +881,10 @@ type timerStats struct {
 }
 
 var timerObs = &timerStats{minSlack: time.Hour}
+
+// scenarios in which something hung (callers, unsent messages, Close): each costs seconds of watchdog time, so the
+// driver stops generating new scenarios after a few of them
+var failedScenarios int
 
 func (t *timerStats) add(elapsed, timeout time.Duration) {
 	t.mu.Lock()
@@ -836,8 +1008,27 @@ func main() {
 	run(b.holdRetry(3, "lostack"), out)
 	run(b.holdRetry(4, "kerr"), out)
 	run(b.holdRetry(2, "drop"), out)
-	for i := 0; i < n; i++ {
+	extra := 1
+	if thorough {
+		extra = 10
+	}
+	for i := 0; i < 9*extra; i++ {
+		run(b.topicMix(i), out)
+	}
+	for i := 0; i < 10*extra; i++ {
+		run(b.exactFill(i), out)
+	}
+	for i := 0; i < 8*extra && failedScenarios < 3; i++ {
+		run(b.tinyTimeout(i), out)
+	}
+	for i := 0; i < 10*extra && failedScenarios < 3; i++ {
+		run(b.qstall(i), out)
+	}
+	for i := 0; i < n && failedScenarios < 3; i++ {
 		run(b.random(i, thorough), out)
+	}
+	if failedScenarios >= 3 {
+		fmt.Fprintf(os.Stderr, "writer driver: %d scenarios hung (callers / unsent messages / Close); not generating further scenarios\n", failedScenarios)
 	}
 	fmt.Fprintf(out, "obs timer fires=%d earlier_than_timeout_minus_1ms=%d min(elapsed-timeout)=%s max(elapsed-timeout)=%s\n",
 		timerObs.n, timerObs.early, timerObs.minSlack, timerObs.maxLate)
